@@ -107,6 +107,15 @@ theorem c09_comment_text_irrelevant (fuel : Nat) (sol : Bool) (body1 body2 post 
     cases x <;> decide
   rw [e, e]
 
+open IgVerif.Skip in
+/-- **`#endif` at the start of a line ends the skipped group** at nesting level 0, whatever
+follows it; one level down it closes the inner conditional only; `#if` opens one. -/
+theorem c09_endif_ends_group (fuel level : Nat) (post : List Nat) :
+    skipGroup (fuel + 1) 0 ⟨some 35, true, [101, 110, 100, 105, 102, 10] ++ post⟩ = (.endif, ⟨some 10, true, post⟩) ∧
+    skipGroup (fuel + 1) (level + 1) ⟨some 35, true, [101, 110, 100, 105, 102, 10] ++ post⟩ = skipGroup fuel level ⟨some 10, true, post⟩ ∧
+    skipGroup (fuel + 1) level ⟨some 35, true, [105, 102, 32, 49, 10] ++ post⟩ = skipGroup fuel (level + 1) ⟨some 10, true, post⟩ :=
+  ⟨skipGroup_endif fuel post, skipGroup_endif_nested fuel level post, skipGroup_if_nested fuel level post⟩
+
 -- `"/*"` in a skipped group used to swallow the `#endif`; `#` alone on a line used to take the next line
 example : (Skip.skipFalseIfBlock (Skip.word "s = \"/*\";\n#endif\nint k;\n")).1 = .endif := by decide
 example : (Skip.skipFalseIfBlock (Skip.word "#\nendif\nint lost;\n#endif\nint k;\n")).2.rest = Skip.word "int k;\n" := by decide
